@@ -214,6 +214,8 @@ def render_program(rng, sites, rich, style, layout):
         src = src.rstrip("\n")
     if layout.get("crlf"):
         src = src.replace("\n", "\r\n")
+    if layout.get("bom"):
+        src = "\ufeff" + src        # a UTF-8 byte order mark (written by some editors; legal in Python source files)
     return {"source": src, "sites": sites, "rich": rich, "style": style, "layout": layout}
 
 
